@@ -2095,7 +2095,13 @@ impl TypeChecker {
             return Ok(());
         }
         match (self.find_type(a), self.find_type(b)) {
-            (Type::Unknown, _) | (_, Type::Unknown) => Ok(()),
+            // Nothing to check yet - but the elements of a tuple have to be compared again once
+            // they are known, so the constraint follows them.
+            (Type::Unknown, _) | (_, Type::Unknown) => {
+                self.add_constraint(a, span, Constraint::Cmp(b));
+                self.add_constraint(b, span, Constraint::Cmp(a));
+                Ok(())
+            }
 
             (Type::Float, Type::Float)
             | (Type::Int, Type::Int)
